@@ -6,6 +6,9 @@
 
   Identifiers: integer `i` of kind `k` is the uuid `00000000-0000-0000-kkkk-iiiiiiiiiiii`, i.e. the
   128-bit value `k * 2^48 + i` (1 stop, 2 agency, 3 service, 4 line, 5 path, 6 scenario, 7 trip).
+
+  Lists that carry their position in the identifier are written as `…From i` recursions (record
+  number `i`, `i+1`, …) so that the round-trip proofs are plain inductions.
 -/
 import TrVerif.Model.Load
 namespace Tr.Load
@@ -14,15 +17,35 @@ def K (kind i : Nat) : Nat := kind * 281474976710656 + i
 
 def modeName (m : Nat) : String := if m = 0 then "bus" else if m = 1 then "rail" else "transferable"
 
+/-- uuid texts `K k i, K k (i+1), …` (`n` of them) -/
+def idsFrom (k : Nat) : Nat → Nat → List UTok
+  | _, 0 => []
+  | i, n+1 => .id (K k i) :: idsFrom k (i+1) n
+
 def encFootFile (ds : Dataset) (s : Nat) : NodeFile :=
   let l := ds.footOf s
   ⟨l.map (fun x => .id (K 1 x.stop)), l.map (·.time), l.map (·.dist)⟩
 
-def encSegs (p : PathRec) : List (SegV × SegV) :=
-  (List.range p.stops.length).map fun (k : Nat) =>
-    match p.dist[k]? with
-    | some d => (.num d, .num ((1000 + k : Nat) : Int))
-    | none => (.absent, .absent)
+def nodeFilesFrom (ds : Dataset) : Nat → Nat → List (Nat × Option NodeFile)
+  | _, 0 => []
+  | i, n+1 => (K 1 i, some (encFootFile ds i)) :: nodeFilesFrom ds (i+1) n
+
+/-- JSON segments of a path: one object per encoded distance, read for the indices `k, k+1, …` -/
+def encSegsFrom (dist : List Int) : Nat → Nat → List (SegV × SegV)
+  | _, 0 => []
+  | k, n+1 => (match dist[k]? with
+      | some d => (SegV.num d, SegV.num ((1000 + k : Nat) : Int))
+      | none => (SegV.absent, SegV.absent)) :: encSegsFrom dist (k+1) n
+
+def encSegs (p : PathRec) : List (SegV × SegV) := encSegsFrom p.dist 0 p.stops.length
+
+def encLinesFrom : Nat → List LineRec → List LineR
+  | _, [] => []
+  | i, l :: ls => ⟨.id (K 4 i), .id (K 2 l.agency), modeName l.mode⟩ :: encLinesFrom (i+1) ls
+
+def encPathsFrom : Nat → List PathRec → List PathR
+  | _, [] => []
+  | i, p :: ps => ⟨.id (K 5 i), .id (K 4 p.line), p.stops.map (fun s => .id (K 1 s)), some (encSegs p)⟩ :: encPathsFrom (i+1) ps
 
 def encScenario (i : Nat) (sc : Scenario) : ScenR :=
   let u (kind : Nat) (l : List Nat) : List Tok := l.map fun x => .u (.id (K kind x))
@@ -31,8 +54,14 @@ def encScenario (i : Nat) (sc : Scenario) : ScenR :=
    [u 3 sc.services, u 4 sc.onlyLines, u 2 sc.onlyAgencies, [], m sc.onlyModes,
     u 4 sc.exceptLines, u 2 sc.exceptAgencies, [], m sc.exceptModes]⟩
 
+def encScenariosFrom : Nat → List Scenario → List ScenR
+  | _, [] => []
+  | i, s :: ss => encScenario i s :: encScenariosFrom (i+1) ss
+
+def b2i (b : Bool) : Int := if b then 1 else 0
+
 def encTrip (t : TripRec) : TripR :=
-  ⟨.id (K 7 t.id), .id (K 5 t.path), t.arr, t.dep, t.cb.map (fun b => if b then 1 else 0), t.cu.map (fun b => if b then 1 else 0)⟩
+  ⟨.id (K 7 t.id), .id (K 5 t.path), t.arr, t.dep, t.cb.map b2i, t.cu.map b2i⟩
 
 /-- trips of line `li`, in dataset order -/
 def tripsOfLine (ds : Dataset) (li : Nat) : List TripRec :=
@@ -41,19 +70,25 @@ def tripsOfLine (ds : Dataset) (li : Nat) : List TripRec :=
 /-- services of those trips in order of first appearance -/
 def servicesOf (ts : List TripRec) : List Nat := (ts.map (·.service)).eraseDups
 
+def encSchedule (ts : List TripRec) (sv : Nat) : List LItem :=
+  [LItem.sched (.id (K 3 sv)), LItem.period] ++ ((ts.filter (·.service = sv)).map fun t => LItem.trip (encTrip t))
+
 def encLineFile (ds : Dataset) (li : Nat) : List LItem :=
   let ts := tripsOfLine ds li
-  (servicesOf ts).flatMap fun sv =>
-    [LItem.sched (.id (K 3 sv)), LItem.period] ++ ((ts.filter (·.service = sv)).map fun t => LItem.trip (encTrip t))
+  (servicesOf ts).flatMap (encSchedule ts)
+
+def lineFilesFrom (ds : Dataset) : Nat → Nat → List (Nat × Option (List LItem))
+  | _, 0 => []
+  | i, n+1 => (K 4 i, some (encLineFile ds i)) :: lineFilesFrom ds (i+1) n
 
 def encode (ds : Dataset) : Disk :=
-  { agencies := (.ok, (List.range ds.nAgencies).map fun i => .id (K 2 i)),
-    services := (.ok, (List.range ds.nServices).map fun i => .id (K 3 i)),
-    nodes := (.ok, (List.range ds.nStops).map fun i => .id (K 1 i)),
-    nodeFiles := (List.range ds.nStops).map fun i => (K 1 i, some (encFootFile ds i)),
-    lines := (.ok, ds.lines.mapIdx fun i l => ⟨.id (K 4 i), .id (K 2 l.agency), modeName l.mode⟩),
-    paths := (.ok, ds.paths.mapIdx fun i p => ⟨.id (K 5 i), .id (K 4 p.line), p.stops.map (fun s => .id (K 1 s)), some (encSegs p)⟩),
-    scenarios := (.ok, ds.scenarios.mapIdx encScenario),
-    lineFiles := (List.range ds.lines.length).map fun li => (K 4 li, some (encLineFile ds li)) }
+  { agencies := (.ok, idsFrom 2 0 ds.nAgencies),
+    services := (.ok, idsFrom 3 0 ds.nServices),
+    nodes := (.ok, idsFrom 1 0 ds.nStops),
+    nodeFiles := nodeFilesFrom ds 0 ds.nStops,
+    lines := (.ok, encLinesFrom 0 ds.lines),
+    paths := (.ok, encPathsFrom 0 ds.paths),
+    scenarios := (.ok, encScenariosFrom 0 ds.scenarios),
+    lineFiles := lineFilesFrom ds 0 ds.lines.length }
 
 end Tr.Load
